@@ -150,6 +150,11 @@ def _options_case(args):
         ("C(v, Treatment, levels=LV)", "tr", "tf", spec_first),
         ("T(v, levels=LV)", "tr", "tf", spec_first),
         ("C(v, Sum, levels=LV)", "sr", "sf", spec_last),  # last level is omitted by default
+        # C() of a box keeps the box's coding and takes the new levels
+        (f"C(S(v, {q}), levels=LV)", "sr", "sf", spec),
+        (f"C(T(v, {q}), levels=LV)", "tr", "tf", spec),
+        ("C(C(v, Sum), levels=LV)", "sr", "sf", spec_last),
+        (f"C(C(v, levels=LV), Sum({q}))", "sr", "sf", spec),
         ("S(v, levels=LV)", "sr", "sf", spec_last),
     ]
     probs = []
